@@ -620,19 +620,21 @@ def translate(
 
     positive = []  # type: list[AnyStr]
     negative = []  # type: list[AnyStr]
+    excluded = 0
 
     if exclude is not None:
         flags = no_negate_flags(flags)
         negative = translate(exclude, flags=flags | DOTMATCH | _NO_GLOBSTAR_CAPTURE, limit=limit)[0]
-        limit -= len(negative)
+        # The exclusion patterns count towards the limit
+        excluded = len(negative)
 
     flags = (flags | _TRANSLATE) & FLAG_MASK
     is_unix = is_unix_style(flags)
     seen = set()
 
     try:
-        current_limit = limit
-        total = 0
+        current_limit = max(limit - excluded, 1) if limit > 0 else limit
+        total = excluded
         for pattern in iter_patterns(patterns):
             pattern = util.norm_pattern(pattern, not is_unix, bool(flags & RAWCHARS))
             count = 0
@@ -707,18 +709,20 @@ def compile_pattern(
 
     positive = []  # type: list[Pattern[AnyStr]]
     negative = []  # type: list[Pattern[AnyStr]]
+    excluded = 0
 
     if exclude is not None:
         flags = no_negate_flags(flags)
         negative = compile_pattern(exclude, flags=flags | DOTMATCH | _NO_GLOBSTAR_CAPTURE, limit=limit)[0]
-        limit -= len(negative)
+        # The exclusion patterns count towards the limit
+        excluded = len(negative)
 
     is_unix = is_unix_style(flags)
     seen = set()
 
     try:
-        current_limit = limit
-        total = 0
+        current_limit = max(limit - excluded, 1) if limit > 0 else limit
+        total = excluded
         for pattern in iter_patterns(patterns):
             pattern = util.norm_pattern(pattern, not is_unix, bool(flags & RAWCHARS))
             count = 0
